@@ -69,6 +69,9 @@ pub struct State {
     pub poisoned_this_call: Vec<usize>,
     /// what the deallocator left in each frame released during the current call (the mapper must not touch it again)
     pub poison_copy: Vec<(usize, Vec<u64>)>,
+    /// live translations (va, pa, size) that must read the same from raw memory at every deallocator callback of the
+    /// current clean-up call (set by the monitor before the call, opt-level-0 flavour)
+    pub watch: Vec<(u64, u64, u64)>,
     /// set of frames the monitor currently believes are tables (for frame_to_pointer checking)
     pub table_frames: BTreeMap<u64, u8>,
     /// scratch table handed out when the mapper asks for a frame that does not exist
@@ -198,6 +201,7 @@ impl Arena {
                 in_callback_tables_walked: 0,
                 poisoned_this_call: Vec::new(),
                 poison_copy: Vec::new(),
+                watch: Vec::new(),
                 table_frames: BTreeMap::new(),
                 scratch,
                 contiguous_block: if is_memfd { None } else { block },
@@ -439,8 +443,22 @@ impl FrameDeallocator<Size4KiB> for ArenaAlloc {
                     }
                     s.in_callback_checks += 1;
                     s.in_callback_tables_walked += visited as u64;
+                    // clean-up never changes a translation - not for a moment either: another CPU walks these tables
+                    // while it runs. The watched live pages read the same from raw memory right now.
+                    let watch = s.watch.clone();
+                    for (va, pa, size) in watch {
+                        let ok = matches!(crate::hwwalk::walk(&s, root_phys, va), crate::hwwalk::Walk::Mapped { pa: p2, size: s2, .. } if p2 == pa && s2 == size);
+                        if !ok {
+                            s.callback_violations.push(("C10".into(), "dealloc|translation-of-a-live-page-broken-while-clean_up-runs".into(), format!("at deallocate_frame({:#x}) the live page {:#x} -> {:#x} no longer translates", p, va, pa)));
+                            s.callback_violations.push(("C01".into(), "dealloc|translation-of-a-live-page-broken-while-clean_up-runs".into(), format!("at deallocate_frame({:#x}) the live page {:#x} -> {:#x} no longer translates", p, va, pa)));
+                            break;
+                        }
+                    }
                     if let Some((pf, k)) = linked_from {
                         s.callback_violations.push(("C10".into(), "dealloc|table-still-linked-at-the-moment-of-deallocation".into(), format!("deallocate_frame({:#x}) while entry {} of table {:#x} still points to it", p, k, pf)));
+                        // (the allocator may hand the frame out again at once: a live entry pointing into it is also a
+                        // memory-safety matter)
+                        s.callback_violations.push(("C09".into(), "dealloc|frame-released-while-a-live-entry-still-points-to-it".into(), format!("deallocate_frame({:#x}) while entry {} of table {:#x} still points to it", p, k, pf)));
                     }
                 }
             }
